@@ -36,7 +36,7 @@ def decColor (name ty num tri : String) : Option Color := do
   let tr ← decTriplet tri
   pure { name := decStr name, type := t, number := n, triplet := tr }
 
-def encErr : PyErr → String
+def encErr : ColorErr → String
   | .assertionError => "err:AssertionError"
   | .indexError => "err:IndexError"
   | .valueError => "err:ValueError"
@@ -47,7 +47,7 @@ def encColor (c : Color) : String :=
   toString c.type.toNat ++ "|" ++ encOptNat c.number ++ "|" ++
     (match c.triplet with | none => "-" | some t => encTriplet t) ++ "|" ++ encStr c.name
 
-def encRes {α : Type} (f : α → String) : Except PyErr α → String
+def encRes {α : Type} (f : α → String) : Except ColorErr α → String
   | .ok a => "ok " ++ f a
   | .error e => encErr e
 
